@@ -1,5 +1,6 @@
 import Bmc.Proofs.C04
 import Bmc.Proofs.GenDec.V2Session
+import Bmc.Proofs.GenDec.AES128CBC
 import Bmc.Proofs.GenDec.Message
 #print axioms Bmc.Proofs.C04.accept_sound
 #print axioms Bmc.Proofs.C04.unauthenticated_or_foreign_is_retry
@@ -8,4 +9,5 @@ import Bmc.Proofs.GenDec.Message
 #print axioms Bmc.Proofs.C04.rmcp_header_cannot_change_the_value
 #print axioms Bmc.Proofs.C04.response_with_any_header
 #print axioms Bmc.Proofs.GenDec.V2Session_gen_eq
+#print axioms Bmc.Proofs.GenDec.AES128CBC_gen_eq
 #print axioms Bmc.Proofs.GenDec.Message_gen_eq
